@@ -3,7 +3,7 @@
    from the definitions."  The model is Bft/Model.v (tied to bft.Engine / bft.justifier by the correspondence run). *)
 From Coq Require Import List NArith Bool Lia.
 From Verif Require Import Common.Util Bft.Tree Bft.Model Bft.Quorum Bft.ProofsTally Bft.ProofsChain Bft.ProofsSearch
-  Bft.ProofsNode Bft.Safety Bft.ProofsWitness.
+  Bft.ProofsNode Bft.Safety Bft.ProofsWitness Bft.ProofsCommit.
 Import ListNotations.
 Open Scope N_scope.
 
@@ -55,12 +55,19 @@ Theorem quality_monotone c b t : 0 < c_L c -> grounded (b :: t) ->
   quality_pure c t <= quality_pure c (b :: t) <= quality_pure c t + 1.
 Proof. intros HL. exact (quality_step c HL b t). Qed.
 
-(* 5. "imported without error however late".  Statement: no import of a numbered block ever fails in CommitBlock.
-      On the code before the F1 repair it is refuted (witness: the late fork inside the finalized epoch);
-      for the repaired code the search argument is proved over abstract quality sequences (_partial: the glue
-      "the engine's per-epoch records along the chain form such a sequence" is established by the invariants above
-      but not yet assembled into the statement). *)
-Definition commit_block_total := commit_block_total_statement true.
+(* 5. "a valid block that descends from the finalized checkpoint is imported without error however late it arrives".
+      Statement (Bft/Safety.v): for every genesis, every list of numbered blocks delivered in any order (with duplicates,
+      unknown parents, blocks off the finalized branch), no import ends in a CommitBlock error (codes >= 100); the only
+      outcomes are imported / known / parent missing / refused by Accepts.  Proved for the code with the F1 guard;
+      refuted for the code before the repair (witness: the late fork inside the finalized epoch). *)
+Theorem commit_block_total : commit_block_total_statement true.
+Proof. exact commit_block_total_lemma. Qed.
+
+(* one step of it: on the accepted path the result code is 0 and the invariants are kept *)
+Theorem accepted_block_imports_without_error c nd b : 0 < c_L c ->
+  inv c nd -> fin_cp c nd -> valid_child (n_repo nd) b ->
+  snd (import true c nd b) < 100 /\ inv c (fst (import true c nd b)) /\ fin_cp c (fst (import true c nd b)).
+Proof. intros HL. exact (import_ok c HL nd b). Qed.
 
 Theorem commit_block_error_refuted : ~ commit_block_total_statement false.
 Proof. exact commit_block_error_refuted_lemma. Qed.
@@ -99,6 +106,8 @@ Print Assumptions stored_quality_is_from_scratch.
 Print Assumptions best_is_max.
 Print Assumptions best_order_independent.
 Print Assumptions quality_monotone.
+Print Assumptions commit_block_total.
+Print Assumptions accepted_block_imports_without_error.
 Print Assumptions commit_block_error_refuted.
 Print Assumptions commit_block_total_partial.
 Print Assumptions committed_implies_justified.
